@@ -248,6 +248,7 @@ pub fn run(cx: &mut Ctx) {
     };
     // the precedence rules read the grammar: python.rs must be what that grammar generates
     crate::g1::run(cx, "C11.G1");
+    crate::rules::grammar_rules::expr_wiring(cx, &g, "C11.E1");
     let refd = match tables::refdata(&cx.verif, "unparse_positions.json") {
         Ok(v) => v,
         Err(e) => return cx.anchor_missing("C11", &e),
